@@ -348,6 +348,16 @@ let expr_sim out =
     | _ -> Printf.fprintf out "BAD-LINE\n"
   done with End_of_file -> ()
 
+(* stmt-sim: lines "<toks of x> | <toks of y>": the hypothesis of the C16 theorems on the statement family on two real token lists *)
+let stmt_sim out =
+  let toks_of s = List.map parse_tok (List.filter (fun x -> x <> "") (String.split_on_char ';' (String.trim s))) in
+  try while true do
+    let line = input_line stdin in
+    match String.split_on_char '|' line with
+    | [a; b] -> Printf.fprintf out "%s\n" (if same_stmt_tokensb (toks_of a) (toks_of b) then "SAME" else "DIFFERENT")
+    | _ -> Printf.fprintf out "BAD-LINE\n"
+  done with End_of_file -> ()
+
 (* expr-c01: lines "<toks of x> | <toks of SQL(parse x)>": the hypotheses of the fragment round-trip theorem on real data: the tree the
    parser model returns for x, positions erased, is canonical (canb 12), and its canonical spelling agrees with the tokens the real lexer
    produced for the printed text (same_tokensb) *)
@@ -460,6 +470,7 @@ let run (args : string list) : bool =
    | ["expr-c01"] -> expr_c01 out; true
    | ["type-model"] -> type_model out; true
    | ["stmt-model"; entry] -> stmt_model out entry; true
+   | ["stmt-sim"] -> stmt_sim out; true
    | ["type-recover"] -> type_recover out; true
    | ["type-c01"] -> type_c01 out; true
    | ["tree-walkmany"] -> tree_walk out 0 0 true; true
